@@ -1,10 +1,13 @@
 import GuppyVerif.Model.Unify
+import GuppyVerif.Model.GenCall
 import GuppyVerif.Util.Sexp
 /-! Line-protocol driver for C12.  One S-expression per line:
       (unify ENV S T SIGMA)   → `fail` | `oof` | `ok SIGMA'`
       (apply SIGMA T)         → term          (one `Substituter` pass)
       (star SIGMA T)          → term          (`|σ|` passes)
       (lin ENV T)             → `true` | `false`
+      (gcall ENV (term…) OUT ((c d)…) (N…) (N…) (EX…) TY|synth) → `accept (term…) term` | `mismatch` | `arity` | `bounds` | `infer` | `oof`
+                                  EX ::= (val term) | (tup EX…); inputs/OUT use (bv i)/(cbv i) for the parameters
       (cta ENV P0 EXP (N…) ACT) → `mismatch` | `cant-infer i` | `free-vars i` | `oof` | `ok (term…) SIGMA`
     term  ::= (v N) | (bv i) | (cbv i) | (num k) | none | (cv ty val)
             | (fn (flag…) params arg…) | (tup arg…) | (op d arg…) | (st d arg…) | (ta term) | (ca term)
@@ -55,6 +58,25 @@ partial def showTm : Tm → String
       | .struct d => s!"st {d}"
     "(" ++ " ".intercalate (hd :: as.map showTm) ++ ")"
 
+partial def ex? : Sexp → Option Ex
+  | .list [.atom "val", t] => do some (.val (← tm? t))
+  | .list (.atom "tup" :: es) => do some (.tup (← es.mapM ex?))
+  | _ => none
+
+def bounds? : Sexp → Option (List (Bool × Bool))
+  | .list xs => xs.mapM fun
+    | .list [a, b] => do some ((← a.asNat?) != 0, (← b.asNat?) != 0)
+    | _ => none
+  | _ => none
+
+def showOut : CallOut → String
+  | .oof => "oof"
+  | .arity => "arity"
+  | .mismatch => "mismatch"
+  | .infer => "infer"
+  | .bounds => "bounds"
+  | .accept ins ret => "accept (" ++ " ".intercalate (ins.map showTm) ++ ") " ++ showTm ret
+
 def showSubst (σ : Subst) : String :=
   "(" ++ " ".intercalate (σ.map fun (v, t) => s!"({v} {showTm t})") ++ ")"
 
@@ -83,6 +105,17 @@ def handle (line : String) : String :=
     match subst? sg, tm? t with
     | some σ, some t => showTm (applyStar σ t)
     | _, _ => "bad-op"
+  | some (.list [.atom "gcall", e, ins, out, bs, f1, f2, es, ty]) =>
+    match env? e, ins.asList?.bind (·.mapM tm?), tm? out, bounds? bs, f1.natList?, f2.natList?,
+          es.asList?.bind (·.mapM ex?) with
+    | some E, some ins, some out, some bs, some f1, some f2, some es =>
+      let sg : Sig := ⟨ins, out, bs⟩
+      match ty with
+      | .atom "synth" => showOut (synthCall E sg f1 es)
+      | t => match tm? t with
+        | some t => showOut (checkCall E sg f1 f2 es t)
+        | none => "bad-op"
+    | _, _, _, _, _, _, _ => "bad-op"
   | some (.list [.atom "cta", e, p0, x, fr, a]) =>
     match env? e, p0.asNat?, tm? x, fr.natList?, tm? a with
     | some E, some p0, some x, some fr, some a =>
